@@ -5,6 +5,11 @@
 #define __always_inline inline
 #define __uint(name, val) int (*name)[val]
 #define __type(name, val) val *name
+#ifndef BPF_ANY
+#define BPF_ANY 0
+#define BPF_NOEXIST 1
+#define BPF_EXIST 2
+#endif
 #ifndef NULL
 #define NULL ((void *)0)
 #endif
